@@ -142,9 +142,9 @@ func (t *TokenBucketFilter) run() {
 
 func (t *TokenBucketFilter) refillTokens(dt time.Duration) {
 	m := 1.0 / dt.Seconds()
-	add := (float64(t.rate) / m) / 8.0
 	t.mutex.Lock()
 	defer t.mutex.Unlock()
+	add := (float64(t.rate) / m) / 8.0
 	t.currentTokensInBucket = math.Min(float64(t.maxBurst), t.currentTokensInBucket+add)
 	t.log.Tracef(
 		"add=(%v / %v) / 8 = %v, currentTokensInBucket=%v, maxBurst=%v",
